@@ -86,6 +86,14 @@ func (c *Crit) build() query.Criteria {
 		return f.NotExists()
 	case "exists":
 		return f.Exists()
+	case "isnil": // the builder's shorthands: IsNil = Eq(nil), IsTrue = Eq(true), IsFalse = Eq(false), IsNilOrNotExists
+		return f.IsNil()
+	case "istrue":
+		return f.IsTrue()
+	case "isfalse":
+		return f.IsFalse()
+	case "isnilornot":
+		return f.IsNilOrNotExists()
 	case "like":
 		return f.Like(c.Pat)
 	case "in":
@@ -130,6 +138,14 @@ func (c *Crit) term() string {
 		return "(CNot (CExists " + gStr(c.Field) + "))"
 	case "exists":
 		return "(CExists " + gStr(c.Field) + ")"
+	case "isnil":
+		return fmt.Sprintf("(CCmp OEq %s (OLit GNil))", gStr(c.Field))
+	case "istrue":
+		return fmt.Sprintf("(CCmp OEq %s (OLit (GBool true)))", gStr(c.Field))
+	case "isfalse":
+		return fmt.Sprintf("(CCmp OEq %s (OLit (GBool false)))", gStr(c.Field))
+	case "isnilornot":
+		return fmt.Sprintf("(COr (CCmp OEq %s (OLit GNil)) (CNot (CExists %s)))", gStr(c.Field), gStr(c.Field))
 	case "like":
 		return fmt.Sprintf("(CLike %s %s)", gStr(c.Field), gStr(c.Pat))
 	case "in":
